@@ -36,7 +36,7 @@ def cases(tier, seed, phase):
                     if fail is not None and fail != k:
                         ws[fail] = 'qe'
                     yield {'edge': edge, 'kind': 'queue', 'writes': ws, 'slow': k}
-        for ro in ['whole', 'reply', 'raise550', 'raise451']:
+        for ro in ['whole', 'reply', 'raise550', 'raise451', 'crash-reset', 'crash-value']:
             yield {'edge': edge, 'kind': 'proxy', 'relay': ro, 'n': 2}
         for n in (1, 2, 3):
             for shape in ('map', 'seq'):
@@ -104,6 +104,9 @@ def make_queue(case, state):
                 return None
             if ro == 'reply':
                 return Reply('250', '2.0.0 ok')
+            if ro.startswith('crash'):
+                # not a RelayError: a custom relay whose peer goes away, a policy that chokes on the message
+                raise ConnectionResetError(104, 'Connection reset by peer') if ro == 'crash-reset' else ValueError('bad header')
             if ro.startswith('raise'):
                 code = ro[5:]
                 cls = PermanentRelayError if code[0] == '5' else TransientRelayError
@@ -133,6 +136,8 @@ def model_line(case):
     ro = case['relay']
     if ro in ('whole', 'reply'):
         return 'edge proxy whole'
+    if ro.startswith('crash'):
+        return 'edge proxy crash'
     if ro.startswith('raise'):
         return 'edge proxy ' + ro
     return 'edge proxy per:' + ro.split(':')[1]
